@@ -182,6 +182,8 @@ type Worker struct {
 	deadlockWhy string
 	lockHook    func(what string, mu *Value, fr *frame)
 	curFrame    *frame
+	model       map[string]uint64 // a model of the current path condition (nil: unknown)
+	modelHits   int64
 }
 
 func (e *Engine) newWorker(id int) (*Worker, error) {
@@ -265,6 +267,7 @@ func (w *Worker) resetPath(prefix []Decision) {
 	w.clockLast = nil
 	w.clockN = 0
 	w.pathState = map[string]interface{}{}
+	w.model = map[string]uint64{}
 	w.gs = nil
 	w.curG = nil
 	w.chanSeq = 0
@@ -320,6 +323,33 @@ func (w *Worker) pushSibling(d Decision) {
 func (w *Worker) addPC(t *Term) {
 	w.pc = append(w.pc, t)
 	w.S.Assert(t)
+	if w.model != nil && !w.holdsInModel(t) {
+		w.model = nil
+	}
+}
+
+// holdsInModel evaluates a Bool term under the cached model (variables the
+// model does not mention are unconstrained so far and read as 0, which the
+// map's zero default keeps consistent for later evaluations).
+func (w *Worker) holdsInModel(t *Term) bool {
+	return Eval(t, w.model, map[*Term]uint64{}) != 0
+}
+
+// checkModel is check() that also fetches a model on Sat.
+func (w *Worker) checkModel(extra *Term) (Result, map[string]uint64) {
+	w.S.Push()
+	w.S.Assert(extra)
+	r, err := w.S.Check()
+	if err != nil {
+		w.S.Pop()
+		panic(pathAbort{"inconclusive", err.Error()})
+	}
+	var m map[string]uint64
+	if r == Sat {
+		m = w.modelFromSolver()
+	}
+	w.S.Pop()
+	return r, m
 }
 
 func (w *Worker) check(extra *Term) Result {
@@ -347,29 +377,59 @@ func (w *Worker) decide(c *Term, why string) bool {
 		return false
 	}
 	w.E.count(func(s *Stats) { s.BranchQueries++ })
-	rt := w.check(c)
+	nc := w.P.BNot(c)
+	if w.model != nil {
+		// the cached model already witnesses one side: one query decides the other
+		side := w.holdsInModel(c)
+		other := nc
+		if !side {
+			other = c
+		}
+		r := w.check(other)
+		sideV := uint64(0)
+		if side {
+			sideV = 1
+		}
+		if r != Unsat {
+			w.pushSibling(Decision{'b', 1 - sideV})
+			w.E.count(func(s *Stats) {
+				s.Decisions++
+				if s.MaxFanout < 2 {
+					s.MaxFanout = 2
+				}
+			})
+		}
+		w.taken = append(w.taken, Decision{'b', sideV})
+		if side {
+			w.addPC(c)
+		} else {
+			w.addPC(nc)
+		}
+		return side
+	}
+	rt, m := w.checkModel(c)
 	if rt == Unsat {
 		// PC is satisfiable by invariant, so the other side is feasible
 		w.taken = append(w.taken, Decision{'b', 0})
-		w.addPC(w.P.BNot(c))
+		w.addPC(nc)
 		return false
 	}
-	rf := w.check(w.P.BNot(c))
-	if rf == Unsat {
-		w.taken = append(w.taken, Decision{'b', 1})
-		w.addPC(c)
-		return true
+	rf := w.check(nc)
+	if rf != Unsat {
+		// both feasible (or unknown: keep both)
+		w.pushSibling(Decision{'b', 0})
+		w.E.count(func(s *Stats) {
+			s.Decisions++
+			if s.MaxFanout < 2 {
+				s.MaxFanout = 2
+			}
+		})
 	}
-	// both feasible (or unknown: keep both)
-	w.pushSibling(Decision{'b', 0})
 	w.taken = append(w.taken, Decision{'b', 1})
 	w.addPC(c)
-	w.E.count(func(s *Stats) {
-		s.Decisions++
-		if s.MaxFanout < 2 {
-			s.MaxFanout = 2
-		}
-	})
+	if rt == Sat && m != nil {
+		w.model = m
+	}
 	return true
 }
 
@@ -410,15 +470,15 @@ func (w *Worker) enumValues(t *Term, limit int) (vals []uint64, complete bool) {
 }
 
 // chooseValue forks over the given feasible values of t.
-func (w *Worker) chooseValue(t *Term, vals []uint64, why string) uint64 {
+func (w *Worker) chooseValue(t *Term, vals []uint64, why string, kind byte) uint64 {
 	if len(vals) == 0 {
 		panic(pathAbort{"infeasible", "no feasible value: " + why})
 	}
 	sort.Slice(vals, func(i, j int) bool { return vals[i] < vals[j] })
 	for _, v := range vals[1:] {
-		w.pushSibling(Decision{'v', v})
+		w.pushSibling(Decision{kind, v})
 	}
-	w.taken = append(w.taken, Decision{'v', vals[0]})
+	w.taken = append(w.taken, Decision{kind, vals[0]})
 	w.addPC(w.P.Cmp(OpEq, t, w.P.Const(t.W, vals[0])))
 	w.E.count(func(s *Stats) {
 		s.Decisions++
@@ -445,7 +505,7 @@ func (w *Worker) concretize(t *Term, why string) uint64 {
 	if !complete {
 		panic(pathAbort{"inconclusive", fmt.Sprintf("case split wider than %d values: %s", w.E.Cfg.MaxFanout, why)})
 	}
-	return w.chooseValue(t, vals, why)
+	return w.chooseValue(t, vals, why, 'v')
 }
 
 func (w *Worker) concInt(i Int, why string) uint64 {
@@ -489,8 +549,18 @@ func (w *Worker) assume(t *Term, label string) {
 	}
 	// when replaying a prefix the assumption was feasible at discovery time
 	if w.pos >= len(w.prefix) {
-		if w.check(t) == Unsat {
-			panic(pathAbort{"assume", label})
+		if w.model != nil && w.holdsInModel(t) {
+			// witnessed by the cached model
+		} else {
+			r, m := w.checkModel(t)
+			if r == Unsat {
+				panic(pathAbort{"assume", label})
+			}
+			w.addPC(t)
+			if r == Sat && m != nil {
+				w.model = m
+			}
+			return
 		}
 	}
 	w.addPC(t)
